@@ -7,7 +7,7 @@
    earlier versions of the code (kept for the refuted statements).  Single promise: Join is not
    in this model. *)
 From CV Require Import Promise.Promise Promise.PromiseProofs Promise.PromiseStepProofs Promise.MuProofs
-  Promise.PromiseTheorems Promise.PromiseLive Promise.PromiseProxies Promise.PromiseJoin Promise.PromiseJoinProofs Promise.PromiseJoinThms Promise.PromiseJoinInv Promise.PromiseJoinRefs Promise.PromiseJoinForest Promise.PromiseJoinDest.
+  Promise.PromiseTheorems Promise.PromiseLive Promise.PromiseProxies Promise.PromiseJoin Promise.PromiseJoinProofs Promise.PromiseJoinThms Promise.PromiseJoinInv Promise.PromiseJoinRefs Promise.PromiseJoinForest Promise.PromiseJoinDest Promise.PromiseJoinChain.
 Open Scope Z_scope.
 
 (* the promise resolves at most once; Fulfill/Reject after the first one panics (OPanic), the
@@ -270,3 +270,21 @@ Theorem C11_join_delivery_destination : forall v np ops c, jreach v np ops c ->
      (p_result (getp c k) <> None \/ p_signals (getp c k) = [])).
 Proof. exact join_delivery_destination. Qed.
 Print Assumptions C11_join_delivery_destination.
+
+(* joined promises hold nothing: references, clients and signals live at the promise they were joined onto *)
+Theorem C11_join_joined_empty : forall v np ops c, jv_alloc_table v = true -> jreach v np ops c -> forall k,
+  (p_caller (getp c k) = true -> p_next (getp c k) = None) /\
+  (p_next (getp c k) <> None ->
+   p_crefs (getp c k) = 0 /\ p_clients (getp c k) = [] /\ p_signals (getp c k) = []).
+Proof. exact join_joined_empty. Qed.
+Print Assumptions C11_join_joined_empty.
+
+(* proxy clients released, per chain: when every promise other than k has been joined, k's clientsRefs equals the
+   number of promises that have not called ReleaseClients plus the calls still walking to k: the table is given up by
+   the last ReleaseClients of the chain, not before (seeded C11-r2-1) and not later *)
+Theorem C11_join_chain_release : forall v np ops c,
+  jv_alloc_table v = true -> jv_refs_sum v = true -> jreach v np ops c ->
+  forall k, (forall k', k' <> k -> p_next (getp c k') <> None \/ p_crefs (getp c k') = 0) ->
+    p_crefs (getp c k) = pm_unreleased (proms c) + jcount owes (jthreads c).
+Proof. exact join_chain_release. Qed.
+Print Assumptions C11_join_chain_release.
